@@ -586,8 +586,11 @@ func (sc *SubCache[EntityT, ExcerptT, CacheT]) MergeAll(remote string) <-chan en
 				// be found (or are found through their old content) until the cache is rebuilt
 				err = sc.indexOne(cached)
 				if err != nil {
+					// report it, but go on: the entities that follow are merged in the repository
+					// whatever happens here, and the instances loaded in the cache have to follow
+					// or the next edit made through them would be written on top of the old history
 					out <- entity.NewMergeError(err, result.Id)
-					return
+					continue
 				}
 
 				sc.evictIfNeeded()
